@@ -53,7 +53,8 @@ class Sel:
     note: str = ""
     nontrivial: str | None = None   # python expr over params: which inputs count as non-trivial
     max_shards: int = 4096
-    min_shard: int = 16             # do not split below this many inputs per shard
+    solutions_func: str | None = None   # optional 'module:function' -> iterable of dicts: efficient native enumeration of the precondition's solution set
+    min_shard: int = 48             # do not split below this many inputs per shard
 
 
 @dataclasses.dataclass
@@ -123,6 +124,13 @@ def known_findings():
 # ------------------------------------------------------------------------------------------------
 def _solutions(u: Sel, extra_pre):
     names = list(u.params)
+    if u.solutions_func:
+        f = _compile_pre(list(u.pre) + list(extra_pre), sorted(names))
+        sols = []
+        for kw in _load(u.solutions_func)(u):
+            assert f(*[kw[n] for n in sorted(names)]), f"solutions_func produced a non-solution {kw}"
+            sols.append(tuple(kw[n] for n in names))
+        return names, sols
     doms = [_domain(u.params[p]) for p in names]
     f = _compile_pre(list(u.pre) + list(extra_pre), sorted(names))
     idx = [names.index(n) for n in sorted(names)]
@@ -138,7 +146,7 @@ def _sel_shards(u: Sel, extra_pre=()):
     resulting maximum) until no shard holds more than ~1/48 of the precondition's solution set."""
     names, sols = _solutions(u, extra_pre)
     by = list(u.shard_by)
-    target = max(u.min_shard, -(-len(sols) // 32))
+    target = max(u.min_shard, -(-len(sols) // 20))
 
     def groups(keys):
         ix = [names.index(k) for k in keys]
@@ -167,19 +175,23 @@ def _sel_shards(u: Sel, extra_pre=()):
     return out
 
 
+_SOL_CACHE = {}
+
+
 def _sel_expected(u: Sel, fixed, extra_pre):
-    """Size of the precondition's solution set, computed natively and independently of the solver."""
-    names = [p for p in u.params if p not in fixed]
-    doms = [_domain(u.params[p]) for p in names]
-    n = 0
-    nt = 0
-    pre = list(u.pre) + list(extra_pre)
-    for combo in itertools.product(*doms):
-        env = dict(fixed)
-        env.update(zip(names, combo))
-        if _eval_pre(pre, env):
+    """Size of the precondition's solution set inside the shard, computed natively and independently of the solver."""
+    key = (id(u), tuple(extra_pre))
+    if key not in _SOL_CACHE:
+        _SOL_CACHE[key] = _solutions(u, extra_pre)
+    names, sols = _SOL_CACHE[key]
+    ix = [(names.index(k), v) for k, v in fixed.items()]
+    nt_f = _compile_pre([u.nontrivial], sorted(names)) if u.nontrivial else None
+    order = [names.index(n) for n in sorted(names)]
+    n = nt = 0
+    for s in sols:
+        if all(s[i] == v for i, v in ix):
             n += 1
-            if u.nontrivial is None or _eval_pre([u.nontrivial], env):
+            if nt_f is None or nt_f(*[s[i] for i in order]):
                 nt += 1
     return n, nt
 
